@@ -67,7 +67,7 @@ func H_C10_Sequence() {
 // C10 for broadcasts that are neither named nor unique and whose Invalidates is a version order (a late, older
 // version coexists with a newer one; a still newer one supersedes both at once): same reference model.
 func H_C10_PlainVersions() {
-	vC10Run([]int{4, 6, 7}, 4+vTier(), vTier() == 0)
+	vC10Run([]int{4, 6, 7}, 4+vTier(), true)
 	vCover("c10.plain")
 }
 
